@@ -435,12 +435,24 @@ def _prove1(goal, facts, budget=1500):
     base_facts = facts
     facts = facts + axioms_for(atoms) + and1_identities(atoms)
     # q != 0 together with q >= 0 (resp. q <= 0) is q >= 1 (resp. q <= -1) over the integers
-    for r2, f in list(facts):
-        if r2 == "!=" and f.t and not f.is_const():
+    # (iterated to a fixpoint, in a canonical order, so that `len != 0` and `len - 1 != 0` give `len >= 2` whatever order the facts arrive in)
+    nes = sorted([f for r2, f in facts if r2 == "!=" and f.t and not f.is_const()], key=repr)
+    done_ne = set()
+    for _round in range(3):
+        progress = False
+        for f in nes:
+            if repr(f) in done_ne:
+                continue
             if prove_ge0(f, facts, 2, None, _Budget(120)):
                 facts.append((">=", f - Poly.const(1)))
+                done_ne.add(repr(f))
+                progress = True
             elif prove_ge0(-f, facts, 2, None, _Budget(120)):
                 facts.append((">=", -f - Poly.const(1)))
+                done_ne.add(repr(f))
+                progress = True
+        if not progress:
+            break
     # lower bounds of min atoms: min(x, y) >= z whenever x >= z and y >= z (z ranges over the positive monomials of x, y)
     for a in atoms:
         if isinstance(a, tuple) and a and a[0] == "min":
